@@ -69,7 +69,7 @@ def extracted_store(repo):
 
 class C07(Prop):
     id = "C07"
-    props_file = ["Props/C07.v", "Props/C07_Bridge.v", "Props/C07_Examples.v"]
+    props_file = ["Props/C07.v", "Props/C07_Bridge.v", "Props/C07_BridgeLoop.v", "Props/C07_Examples.v"]
     coq_imports = ["From ONL Require Import Base.Cmp Res.Heap Res.ContainerStore Res.ContainerStoreObs."]
     n_quick = 3000
     n_thorough = 40000
@@ -83,7 +83,8 @@ class C07(Prop):
                        "put/get in modes wait / nowait / patience (with-block + timeout, then cancel), cancels of arbitrary "
                        "(head, non-head, triggered, already cancelled) requests, delays from {0,1,2,1/2,3}; "
                        "non-trivial = at least one request waited in a queue and at least two grants happened; distinct by case hash")
-    trusted_base = [
+    trusted_base = ["vlib/translate.py (Python ast, fail closed; tables in props/res_tie.py) regenerates coq/Gen/Extracted_scan.v (the initialisation and ONE iteration of the scan loops BaseResource._trigger_put / _trigger_get) and Extracted_baseres.v (Put / Get .__init__, .cancel, Request.__exit__, Release.__init__, PriorityRequest.__init__, SortedQueue.append) from the tree under test before every build; the C07_gen_* theorems of Props/C07_BridgeLoop.v run the generated iteration on the queue (fuel 1 + its length, shown sufficient) and bridge it to the hand-written model",
+                    
         "harness: the clock is driven with env.step(); env._queue[0] is inspected before every step to label the step; "
         "env.schedule is wrapped (instance attribute) to see the order of succeed() calls; request objects are numbered at creation",
         "amounts, levels and times are dyadic, so the floats the code computes are exact and are compared as rationals; "
@@ -112,6 +113,8 @@ class C07(Prop):
         from vlib import translate as tr
         tr.write_if_changed(os.path.join(fw.COQ, "Gen", "Extracted_container.v"), extracted_container(fw.REPO))
         tr.write_if_changed(os.path.join(fw.COQ, "Gen", "Extracted_store.v"), extracted_store(fw.REPO))
+        from props import res_tie
+        res_tie.write_extracted(fw.REPO, fw.COQ)
 
     # ---- generation -------------------------------------------------------------------------
     def _param(self, rng, kind, op):
